@@ -96,8 +96,18 @@ var workloads = []workload{
 		return syncedOpts().WithWriteTxHeaderVersion(0).WithMaxIOConcurrency(2).WithAHTOptions(store.DefaultAHTOptions().WithWriteBufferSize(4096).WithSyncThld(1))
 	}, commitN(4, func(i int) int { return 8 })},
 	{"allowance-backlog", func() *store.Options { return syncedOpts().WithExternalCommitAllowance(true) }, func(st *store.ImmuStore, ack func(h *store.TxHeader)) {
-		// precommitted-but-uncommitted backlog: three committers block until the allowance is granted step by step
+		// precommitted-but-uncommitted backlog: three committers block until the allowance is granted step by step.
+		// What a replica reports to its primary as durably precommitted (PrecommittedAlh) is an acknowledgement as
+		// well: it is sampled at every step of the driver, also while a later transaction is precommitted in memory
+		// only; a crash after a report must not lose the reported transaction
 		ctx := context.Background()
+		var last uint64
+		sample := func() {
+			if id, _ := st.PrecommittedAlh(); id > last {
+				last = id
+				vos.Mark(fmt.Sprintf("dur %d", id))
+			}
+		}
 		for i := 0; i < 3; i++ {
 			i := i
 			vsched.Spawn(func() {
@@ -109,18 +119,29 @@ var workloads = []workload{
 				}
 				ack(h)
 			})
-		}
-		for st.LastPrecommittedTxID() < 3 {
-			vsched.Pause("wait for precommits")
+			for st.LastPrecommittedTxID() < uint64(i+1) {
+				sample()
+				vsched.Pause("wait for the precommit")
+			}
+			sample()
+			if i < 2 { // the next committer arrives once this transaction is durable
+				for last < uint64(i+1) {
+					vsched.Pause("wait for the syncer")
+					sample()
+				}
+			}
 		}
 		for id := uint64(1); id <= 3; id++ {
+			sample()
 			if err := st.AllowCommitUpto(id); err != nil {
 				panic(err)
 			}
+			sample()
 			if err := st.WaitForTx(ctx, id, false); err != nil {
 				panic(err)
 			}
 		}
+		sample()
 		vsched.Join()
 	}},
 	{"discard-then-recommit", func() *store.Options {
@@ -212,8 +233,13 @@ func record(w workload) result {
 // checkImage is the C03 oracle on one materialised image.
 func checkImage(w workload, r result, img *crashfs.Image, dir string) (sig, detail string) {
 	acked := map[uint64]*storeh.TxRec{}
+	var reportedDurable uint64
 	for _, m := range img.Marks {
 		var id uint64
+		if n, _ := fmt.Sscanf(m, "dur %d", &id); n == 1 {
+			reportedDurable = max(reportedDurable, id)
+			continue
+		}
 		fmt.Sscanf(m, "ack %d", &id)
 		acked[id] = r.ledger.Acked[id]
 	}
@@ -247,6 +273,9 @@ func checkImage(w workload, r result, img *crashfs.Image, dir string) (sig, deta
 		return "recovered-history " + classify(d), d
 	}
 	n, _ := st.CommittedAlh()
+	if n < reportedDurable {
+		return "reported-durable-precommit-lost", fmt.Sprintf("PrecommittedAlh() reported tx %d as durably precommitted before the crash; the recovered store holds %d transactions", reportedDurable, n)
+	}
 	// clients holding a state verified before the crash can still prove consistency
 	if n > 0 {
 		tgt, err := st.ReadTxHeader(n, false, false)
